@@ -265,27 +265,249 @@ func checkBranchesTrim(p *load.Program, r *kit.Report) {
 	if f == nil {
 		return
 	}
-	parentF := p.Field(H, "Branch", "parent")
+	pos := posOf(p, f.Blocks[0].Instrs[0])
+	parentF := p.Field(H, "Branch", "parentHeight")
+	_ = parentF
+	parF := p.Field(H, "Branch", "parent")
 	phF := p.Field(H, "Branch", "parentHeight")
 	inc := kit.FindGuards(f, kit.CallCond(func(c *ssa.Call) bool {
-		return loadOfField(c.Call.Args[len(c.Call.Args)-1], parentF)
+		return loadOfField(c.Call.Args[len(c.Call.Args)-1], parF)
 	}, H+".Branches.Includes"))
-	r.Check(len(inc) == 1, "TRIM-SHAPE", "Branches.Trim/transitive", posOf(p, f.Blocks[0].Instrs[0]), "branches whose parent was removed are removed",
-		"descendants of removed branches are not removed transitively (no removed.Includes(b.parent) test)")
-	lin := kit.NewLin(f)
-	bad := "no test b.parentHeight >= height for children of the trimmed branch"
-	for _, g := range kit.FindGuards(f, func(c ssa.Value) (bool, bool) {
+	if len(inc) != 1 {
+		r.Bad("TRIM-SHAPE", "Branches.Trim/transitive", pos, "descendants of removed branches are not removed transitively (no removed.Includes(b.parent) test)")
+		r.Bad("TRIM-SHAPE", "Branches.Trim/children-at-or-above", pos, "not analysed: the removal loop was not recognised")
+		return
+	}
+	incCall := inc[0].If.Cond
+	for {
+		if u, ok := incCall.(*ssa.UnOp); ok && u.Op == token.NOT {
+			incCall = u.X
+			continue
+		}
+		break
+	}
+	call := incCall.(*ssa.Call)
+	// the element under test and the removed list
+	_, elem := kit.LoadedField(call.Call.Args[1])
+	elem = kit.Strip(elem)
+	removed := kit.Strip(call.Call.Args[0])
+	// the loop: header = the block of the removed-list phi
+	rph, _ := removed.(*ssa.Phi)
+	bad := ""
+	if rph == nil {
+		bad = "the list of removed branches is not accumulated over the loop"
+	}
+	var header ssa.Instruction
+	if rph != nil {
+		header = rph.Block().Instrs[0]
+	}
+	// appends of the element
+	type app struct {
+		in   ssa.Instruction
+		dest ssa.Value
+	}
+	var toRemoved, toOther []app
+	kit.AllInstrs(f, func(in ssa.Instruction) {
+		c, ok := in.(*ssa.Call)
+		if !ok || kit.CallID(c) != "builtin.append" || len(c.Call.Args) != 2 {
+			return
+		}
+		// is the appended value the element?
+		isElem := false
+		if sl, ok := c.Call.Args[1].(*ssa.Slice); ok {
+			if al, ok := sl.X.(*ssa.Alloc); ok {
+				for _, ref := range *al.Referrers() {
+					if ia, ok := ref.(*ssa.IndexAddr); ok {
+						for _, r2 := range *ia.Referrers() {
+							if st, ok := r2.(*ssa.Store); ok && kit.Strip(st.Val) == elem {
+								isElem = true
+							}
+						}
+					}
+				}
+			}
+		}
+		if !isElem {
+			return
+		}
+		if kit.Strip(c.Call.Args[0]) == removed {
+			toRemoved = append(toRemoved, app{in, removed})
+		} else {
+			toOther = append(toOther, app{in, kit.Strip(c.Call.Args[0])})
+		}
+	})
+	// the direct-child test: elem.parent == branch && elem.parentHeight >= height
+	branchPrm := prmAt(f, 1)
+	heightPrm := prmAt(f, 2)
+	parEq := kit.FindGuards(f, func(c ssa.Value) (bool, bool) {
+		b, ok := c.(*ssa.BinOp)
+		if !ok || (b.Op != token.EQL && b.Op != token.NEQ) {
+			return false, false
+		}
+		x, y := kit.Strip(b.X), kit.Strip(b.Y)
+		if y != ssa.Value(branchPrm) {
+			x, y = y, x
+		}
+		if y != ssa.Value(branchPrm) {
+			return false, false
+		}
+		fl, base := kit.LoadedField(x)
+		if fl != parF || kit.Strip(base) != elem {
+			return false, false
+		}
+		return true, b.Op == token.EQL
+	})
+	phGE := kit.FindGuards(f, func(c ssa.Value) (bool, bool) {
 		b, ok := c.(*ssa.BinOp)
 		if !ok {
 			return false, false
 		}
-		if fl, _ := kit.LoadedField(b.X); fl != phF {
+		x, y := kit.Strip(b.X), kit.Strip(b.Y)
+		op := b.Op
+		if y != ssa.Value(heightPrm) {
+			x, y = y, x
+			switch op {
+			case token.LSS:
+				op = token.GTR
+			case token.LEQ:
+				op = token.GEQ
+			case token.GTR:
+				op = token.LSS
+			case token.GEQ:
+				op = token.LEQ
+			}
+		}
+		if y != ssa.Value(heightPrm) {
 			return false, false
 		}
-		return cmpMatches(lin, c, lin.Of(b.X).Sub(pAtom(f, 2)), 0)
-	}) {
-		_ = g
-		bad = ""
+		fl, base := kit.LoadedField(x)
+		if fl != phF || kit.Strip(base) != elem {
+			return false, false
+		}
+		switch op {
+		case token.GEQ:
+			return true, true
+		case token.LSS:
+			return true, false
+		}
+		return false, false
+	})
+	badC := ""
+	switch {
+	case len(phGE) != 1:
+		badC = "no test b.parentHeight >= height for children of the trimmed branch"
+	case len(parEq) != 1:
+		badC = "no test b.parent == branch for children of the trimmed branch"
+	default:
+		if d, _ := kit.DominatedByEdges(f, phGE[0].If, []kit.Edge{parEq[0].PassEdge()}, nil, p.Pos); !d {
+			badC = "the attach-height test is applied to branches that are not children of the trimmed branch"
+		}
 	}
-	r.Check(bad == "", "TRIM-SHAPE", "Branches.Trim/children-at-or-above", posOf(p, f.Blocks[0].Instrs[0]), "children attached at or above the trimmed height are removed", bad)
+	if bad == "" && header != nil {
+		stopHdr := kit.InstrSet(header)
+		var remIns []ssa.Instruction
+		for _, a := range toRemoved {
+			remIns = append(remIns, a.in)
+		}
+		if len(toRemoved) == 0 {
+			bad = "removed branches are not recorded: their descendants cannot be recognised"
+		}
+		// recorded as removed only on the two removal edges
+		var passes []kit.Edge
+		passes = append(passes, inc[0].PassEdge())
+		if badC == "" {
+			passes = append(passes, phGE[0].PassEdge())
+		}
+		for _, a := range toRemoved {
+			if d, path := kit.DominatedByEdges(f, a.in, passes, nil, p.Pos); !d && bad == "" {
+				bad = "a branch is dropped although neither its parent was removed nor it is attached at/above the trimmed height: " + path
+			}
+		}
+		// on each removal edge the element is recorded before the next element is looked at, and it
+		// is not kept
+		for _, e := range passes {
+			rr := kit.Reach(f, []kit.Pt{kit.EdgeStart(e)}, kit.Opts{StopAt: func(in ssa.Instruction) bool {
+				if in == header {
+					return true
+				}
+				for _, x := range remIns {
+					if x == in {
+						return true
+					}
+				}
+				return false
+			}})
+			if rr.Has(header) {
+				msg := "a removed branch is not recorded in the removed list on some path: its own descendants survive"
+				if e == inc[0].PassEdge() {
+					bad = msg
+				} else if badC == "" {
+					badC = msg
+				}
+			}
+			keep := kit.Reach(f, []kit.Pt{kit.EdgeStart(e)}, kit.Opts{StopAt: stopHdr})
+			for _, a := range toOther {
+				if keep.Has(a.in) {
+					msg := "a branch that must be removed is also kept (appended to " + describe(a.dest) + ")"
+					if e == inc[0].PassEdge() {
+						bad = msg
+					} else if badC == "" {
+						badC = msg
+					}
+				}
+			}
+		}
+		// parents are visited before their children: the list is walked forward (children are
+		// appended to the branch list after their parents)
+		if w := forwardWalk(elem); w != "" && bad == "" {
+			bad = w
+		}
+	}
+	r.Check(bad == "", "TRIM-SHAPE", "Branches.Trim/transitive", pos, "branches whose parent was removed are removed: recorded on the removal edges, never kept, list walked forward", bad)
+	r.Check(badC == "", "TRIM-SHAPE", "Branches.Trim/children-at-or-above", pos, "children attached at or above the trimmed height are removed", badC)
+}
+
+// forwardWalk: elem is list[i] with i counting up by one.
+func forwardWalk(elem ssa.Value) string {
+	u, ok := elem.(*ssa.UnOp)
+	if !ok || u.Op != token.MUL {
+		return "the branch under test is not an element of the branch list"
+	}
+	ia, ok := u.X.(*ssa.IndexAddr)
+	if !ok {
+		return "the branch under test is not an element of the branch list"
+	}
+	idx := kit.Strip(ia.Index)
+	var ph *ssa.Phi
+	switch x := idx.(type) {
+	case *ssa.Phi:
+		ph = x
+	case *ssa.BinOp:
+		if _, isC := kit.ConstInt(x.Y); isC && x.Op == token.ADD {
+			ph, _ = x.X.(*ssa.Phi)
+		}
+	}
+	if ph == nil {
+		return "the branch list is not walked by a simple counter"
+	}
+	for _, e := range ph.Edges {
+		if _, isC := kit.ConstInt(e); isC {
+			continue
+		}
+		b, ok := e.(*ssa.BinOp)
+		if !ok || b.X != ssa.Value(ph) {
+			// the start value (e.g. len-1 of a backward walk) or something else
+			if ok && b.Op == token.SUB {
+				if _, isC := kit.ConstInt(b.Y); isC {
+					continue
+				}
+			}
+			return "the branch list is not walked by a simple counter"
+		}
+		k, isC := kit.ConstInt(b.Y)
+		if !isC || !((b.Op == token.ADD && k == 1) || (b.Op == token.SUB && k == -1)) {
+			return "the branch list is walked backward (or not in steps of one): children are looked at before their parents, so descendants of a removed branch survive"
+		}
+	}
+	return ""
 }
